@@ -44,6 +44,7 @@ type C05 struct {
 	User    sdk.AccAddress
 	Items   []string
 	Pairs   [][2]string
+	Lists   [][]string // longer blocks
 	Timeout int64
 	Tokens  []TokenRow
 	// Extra: a bonded validator whose share is below the oracle's 16-bit power resolution (normalised
@@ -68,8 +69,13 @@ func NewC05(tier string) *C05 {
 	}
 	c.Items = []string{"empty", "send1", "send2", "send65", "send70", "sendM70", "reqbatch", "cancel1",
 		"dep_ok", "dep_disputed", "dep_negfee", "dep_huge", "dep_huge_dec6", "dep_huge_dec24", "dep_zero", "dep_unknown_token", "dep_unknown_chain", "dep_to_hub_short_recv", "dep_negfee_hub",
-		"exec_first", "exec_first_hugefee", "exec_unknown", "valset_event", "logic_event", "prices", "prices_partial", "holders", "observe_far", "prices_extra_name_by_powerless", "holders_by_powerless"}
+		"exec_first", "exec_first_hugefee", "exec_unknown", "valset_event", "logic_event", "prices", "prices_partial", "holders", "observe_far", "prices_extra_name_by_powerless", "holders_by_powerless",
+		"delegate_dup_ext", "delegate_dup_orch", "delegate_fresh"}
 	c.Pairs = [][2]string{{"send2", "send70"}, {"send1", "send65"}, {"dep_ok", "send70"}, {"observe_far", "send2"}, {"prices", "exec_first"}, {"reqbatch", "send70"}, {"send70", "reqbatch"}}
+	// a key registration that is rejected (address / orchestrator already in use) or accepted in the middle of a block that
+	// has written many entries, followed by one more write: whatever the registration scanned must not stay open
+	c.Lists = [][]string{{"send70", "delegate_dup_ext", "send1"}, {"send70", "delegate_dup_orch", "send1"}, {"send70", "delegate_fresh", "send1"},
+		{"sendM70", "delegate_dup_ext", "sendM1"}}
 	if tier == "thorough" {
 		c.Items = append(c.Items, "send66", "send101", "send1100", "cancel2")
 		c.Pairs = append(c.Pairs, [2]string{"send2", "send1100"}, [2]string{"send101", "reqbatch"}, [2]string{"send2", "send66"})
@@ -140,6 +146,11 @@ func (c *C05) Ops(s engine.State) []engine.Op {
 	for _, dt := range []int64{5, c.Timeout + 1} {
 		for _, p := range c.Pairs {
 			ops = append(ops, engine.Op{Kind: "Block", S: []string{p[0], p[1]}, I: []int64{dt}})
+		}
+	}
+	for _, dt := range []int64{5, c.Timeout + 1} {
+		for _, l := range c.Lists {
+			ops = append(ops, engine.Op{Kind: "Block", S: append([]string{}, l...), I: []int64{dt}})
 		}
 	}
 	return ops
@@ -330,6 +341,20 @@ func (c *C05) item(in *hub.Instance, ns *c05State, it string, st *engine.Step) {
 		c.sends(in, ns, 1100, "ethereum", 1, st)
 	case "sendM70":
 		c.sends(in, ns, 70, "minter", 1, st)
+	case "sendM1":
+		c.sends(in, ns, 1, "minter", 50, st)
+	case "delegate_dup_ext", "delegate_dup_orch", "delegate_fresh":
+		// validator B registers keys on ethereum: A's external address (in use), A's orchestrator (in use), or fresh ones
+		b, a := c.Vals[1], c.Vals[0]
+		seq, _ := in.Acc.GetSequence(in.Ctx(), b.Acc)
+		key, orch := hub.EthKey("c05fresh"), hub.User("c05freshorch")
+		switch it {
+		case "delegate_dup_ext":
+			key = a.EthKey
+		case "delegate_dup_orch":
+			orch = a.Orch
+		}
+		c.txOutcome(in.DeliverMsg(hub.DelegateKeysMsg(in.Cdc, b, "ethereum", orch, key, seq)), st)
 	case "reqbatch":
 		c.txOutcome(in.DeliverMsg(&mhubtypes.MsgRequestBatchTx{ChainId: "ethereum", Denom: "hub", Signer: c.User.String()}), st)
 	case "cancel1", "cancel2":
@@ -528,7 +553,7 @@ func init() {
 				res := engine.Run(sc, cfg)
 				return BFSOutput(res, cfg, []string{
 					"every transition is one whole block executed on a block-scoped CacheMultiStore with per-tx cache layers (the layering of baseapp); states are block boundaries",
-					fmt.Sprintf("block items %v, pairs %v, block time steps {5 s, timeout+1 s}", sc.Items, sc.Pairs),
+					fmt.Sprintf("block items %v, pairs %v, longer blocks %v, block time steps {5 s, timeout+1 s}", sc.Items, sc.Pairs, sc.Lists),
 					"hostile claims are voted by all three validators, i.e. they model what every honest orchestrator/connector would report for a hostile external transaction, or a >=66% coalition",
 					"a transition that exceeds the horizon is a violation only with the structural deadlock signature in two stack dumps; otherwise it is reported as pruned (exhaustive=false), never as a violation",
 					"validators A,B,C hold 30000 each; a fourth bonded validator holds 1 (below the oracle's 16-bit power resolution: normalised oracle power 0) and a fifth is registered but unbonded; a zero total power is not generated (x/staking never bonds a validator with zero power)",
